@@ -100,4 +100,6 @@ def run(ctx, proof):
                 [games.popcount(int(x)) for x in b] != sorted(games.popcount(i) for i in range(2 ** n)):
             mism.append(({"comp": "structure", "n": n, "v": [], "K": [], "stale": None, "stream": "exact", "src": "structure"},
                          f"relation matrix / sorted ids differ for n={n}"))
+    import coqshard
+    coqshard.cross_check(ctx, cases, limit=8 if ctx.quick else 40)
     campaign.report_mismatches(ctx, mism, ORACLES, "implementation (both computers, memoised structure) = Bounds.v / Structure.v model")
